@@ -1,4 +1,5 @@
 import TcheranVerif.Proofs.MagicCert
+import TcheranVerif.Proofs.Sweep.S21  -- only to bound how many parts are checked at once (≈8 GB each)
 /-! C07 sweep, part 25: bishop squares [0, 1, 2, 3, 4, 5, 6, 7, 8, 9, 10, 11, 12, 13, 14, 15, 16, 17, 18, 19, 20, 21, 22, 23, 24, 25, 26, 27, 28, 29, 30, 31] — decided by the kernel alone -/
 namespace Tcheran.Sweep
 
